@@ -217,7 +217,7 @@ pub fn run(ctx: &Ctx) {
         v
     };
     let mut long_pairs: Vec<(Tagged, Tagged)> = Vec::new();
-    for n in 6..=12usize {
+    for n in (6..=12usize).chain([16, 31, 32, 33, 34, 40, 64, 65]) {
         let base: Vec<u8> = (0..n as u8).collect();
         let firsts: Vec<Tagged> = patterns(n).into_iter().map(|p| p.into_iter().zip(base.iter().cloned()).collect()).collect();
         let mut item_sets: Vec<Vec<u8>> = vec![base.clone(), base[..n - 1].to_vec()];
@@ -228,7 +228,8 @@ pub fn run(ctx: &Ctx) {
         let mut seconds: Vec<Tagged> = Vec::new();
         for items in item_sets {
             let mut orders: Vec<Vec<u8>> = vec![items.clone(), items.iter().rev().cloned().collect()];
-            for k in 1..items.len() {
+            let rotations: Vec<usize> = if n <= 12 { (1..items.len()).collect() } else { vec![1, items.len() / 2, items.len() - 1] };
+            for k in rotations {
                 let mut r = items.clone();
                 r.rotate_left(k);
                 orders.push(r);
@@ -259,7 +260,7 @@ pub fn run(ctx: &Ctx) {
     );
     evaluations += res.processed * 2;
     complete &= res.complete;
-    spaces.push(json!({"family": "long lists, 6..=12 items, tag patterns x orders (ascending / descending / every rotation) x item sets (same / one removed / two added)", "pairs": long_pairs.len(), "pairs_done": res.processed}));
+    spaces.push(json!({"family": "long lists, 6..=12 items (and 16, 31..34, 40, 64, 65 with three rotations), tag patterns x orders (ascending / descending / rotations) x item sets (same / one removed / two added)", "pairs": long_pairs.len(), "pairs_done": res.processed}));
     ctx.set("evaluations", json!(evaluations));
     ctx.set("distinct_nontrivial", json!(nontrivial));
     ctx.set(
